@@ -30,6 +30,7 @@ type event struct {
 
 type world struct {
 	events []event
+	hb     *callbacks.HandlerBuilder
 }
 
 // add records an event. Handlers run on the goroutines of the units they observe, so the list is shared:
@@ -161,7 +162,12 @@ func (w *world) handler(name string, raw bool, streamMode string) callbacks.Hand
 	if raw {
 		return &rawHandler{onStart, onEnd, onErr, onStartS, onEndS}
 	}
-	return callbacks.NewHandlerBuilder().OnStartFn(onStart).OnEndFn(onEnd).OnErrorFn(onErr).
+	// all built handlers of one execution come from ONE builder that is re-used (Build hands out a snapshot: a
+	// handler built earlier keeps its own functions)
+	if w.hb == nil {
+		w.hb = callbacks.NewHandlerBuilder()
+	}
+	return w.hb.OnStartFn(onStart).OnEndFn(onEnd).OnErrorFn(onErr).
 		OnStartWithStreamInputFn(onStartS).OnEndWithStreamOutputFn(onEndS).Build()
 }
 
